@@ -227,9 +227,11 @@ Proof.
   - rewrite Hon'. discriminate.
 Qed.
 
-Ltac same_ghosts := cbn [after l_sub l_del l_nvs l_nvr l_ready out_events out_res out_conn mk vital_payloads
+Ltac same_ghosts := repeat match goal with o := mk _ _ _ _ _ _ |- _ => subst o end; cbn [after l_sub l_del l_nvs l_nvr l_ready out_events out_res out_conn mk vital_payloads
                          nonvital_payloads flat_map filter]; rewrite ?app_nil_r; try reflexivity;
-  try (change (ready_events []) with 0; lia).
+  try (match goal with |- context [ready_events ?l] =>
+         let v := eval compute in (ready_events l) in change (ready_events l) with v end; lia);
+  try lia.
 
 Lemma after_noev_grows x o out :
   out_events out = [] -> (forall d v, o <> OpSend d v) -> grows x (after x o out).
@@ -509,4 +511,510 @@ Proof.
       * constructor; [|constructor]. unfold flight_ok, mk_flight. cbn.
         pose proof (zlen_nonneg (l_sub x)). pose proof (zlen_nonneg (l_del x)).
         repeat split; try lia; try discriminate. constructor.
+Qed.
+
+(* ---------- datagrams arriving ---------- *)
+
+(* events that touch no history *)
+Definition quiet (evs : list ev) : Prop :=
+  vital_payloads evs = [] /\ nonvital_payloads evs = [] /\ ready_events evs = 0.
+
+Lemma quiet_step x subY delY nvsY ansY o c' e' evs ws r :
+  side_inv x subY delY nvsY ansY -> (forall d v, o <> OpSend d v) -> quiet evs ->
+  conn_ok6 c' -> c_state c' = c_state (l_conn x) ->
+  let out := mk c' e' [] evs ws r in
+  side_inv (after x o out) subY delY nvsY ansY /\ bag_inv (flights_of x out) (after x o out) /\
+  grows x (after x o out).
+Proof.
+  intros Hi Ho [Q1 [Q2 Q3]] Hc' Hst out.
+  assert (Hs : l_sub (after x o out) = l_sub x).
+  { cbn. destruct o; try reflexivity. exfalso. eapply Ho. reflexivity. }
+  assert (Hn : l_nvs (after x o out) = l_nvs x).
+  { cbn. destruct o; try reflexivity. exfalso. eapply Ho. reflexivity. }
+  assert (Hd : l_del (after x o out) = l_del x) by (unfold out, after; cbn [l_del out_events mk]; rewrite Q1; apply app_nil_r).
+  assert (Hr : l_nvr (after x o out) = l_nvr x) by (unfold out, after; cbn [l_nvr out_events mk]; rewrite Q2; apply app_nil_r).
+  assert (Hy : l_ready (after x o out) = l_ready x) by (unfold out, after; cbn [l_ready out_events mk]; rewrite Q3; lia).
+  assert (Hg : grows x (after x o out)).
+  { unfold grows. rewrite Hs, Hd, Hn. split; [exists []; rewrite app_nil_r; reflexivity|].
+    split; [exists []; rewrite app_nil_r; reflexivity|]. split; [apply incl_refl|].
+    cbn. intros ->. reflexivity. }
+  split; [|split; [constructor|exact Hg]].
+  eapply side_inv_keep; [exact Hi|exact Hs|exact Hd|exact Hn|exact Hr|exact Hy|exact Hc'| | |].
+  - cbn [after l_conn out out_conn mk]. rewrite Hst. auto.
+  - cbn [after l_conn out out_conn mk]. rewrite Hst. apply (sv_online _ _ _ _ _ Hi).
+  - cbn [after l_conn out out_conn mk]. rewrite Hst. apply (sv_ready_conn _ _ _ _ _ Hi).
+Qed.
+
+Lemma quiet_nil : quiet [].
+Proof. repeat split. Qed.
+
+(* the acknowledgement carried by a datagram of the peer: the resend queue shrinks, nothing else *)
+Lemma ack_side x y on c :
+  side_inv x (l_sub y) (l_del y) (l_nvs y) (l_answered y) ->
+  c_state (l_conn x) = Online on ->
+  0 <= c <= zlen (l_del y) -> zlen (l_sub x) - c < 1024 -> zlen (l_del y) <= zlen (l_sub x) ->
+  exists a', snd_inv (ack_chunks on (seqof c)) (l_sub x) (l_nvs x) a' /\ a' <= zlen (l_del y) /\
+             o_ack (ack_chunks on (seqof c)) = seqof (zlen (l_del x)).
+Proof.
+  intros Hi Hon Hc Hf Hle. destruct (sv_online _ _ _ _ _ Hi on Hon) as [a [Hs [Ha Hack]]].
+  exists (Z.max a c). split; [apply ack_link; [exact Hs|lia|exact Hf]|]. split; [lia|].
+  destruct (ack_chunks_same on (seqof c)) as [_ [E _]]. congruence.
+Qed.
+
+Lemma recv_events_quiet_ready cs : forall ack rr ack' rr' evs,
+  recv_chunks ack rr cs = Ok (ack', rr', evs) -> ready_events evs = 0.
+Proof.
+  induction cs as [|c cs IH]; intros ack rr ack' rr' evs H; cbn [recv_chunks] in H.
+  - injection H as <- <- <-. reflexivity.
+  - destruct (ch_vital c) as [[s r]|].
+    + destruct ((s <? 0) || (SEQ_MOD <=? s)); [discriminate|].
+      destruct (seq_update ack s) as [a' o]. destruct o.
+      * eapply IH, H.
+      * destruct (recv_chunks a' rr cs) as [[[a2 r2] e2]| | |] eqn:E; try discriminate.
+        injection H as <- <- <-. apply (IH _ _ _ _ _ E).
+      * eapply IH, H.
+    + destruct (recv_chunks ack rr cs) as [[[a2 r2] e2]| | |] eqn:E; try discriminate.
+      injection H as <- <- <-. apply (IH _ _ _ _ _ E).
+Qed.
+
+Lemma snd_inv_new : snd_inv (online_new None None) [] [] 0 /\ forall t, snd_inv (online_new t t) [] [] 0.
+Proof.
+  assert (H : forall t, snd_inv (online_new t t) [] [] 0).
+  { intros t. constructor; cbn; try reflexivity; try lia; try constructor. }
+  split; [apply H|exact H].
+Qed.
+
+Lemma o_set_ack_snd o a r sub nvs k : snd_inv o sub nvs k -> snd_inv (o_set_ack o a r) sub nvs k.
+Proof. intros [H1 H2 H3 H4 H5 H6 H7]. constructor; assumption. Qed.
+
+(* the chunk datagram case, once the receiver is online with record o3 (after the ack and a possible resend) *)
+Lemma chunks_arrive x y f o3 snd sent e' a3 cs ack' rr' evs :
+  side_inv x (l_sub y) (l_del y) (l_nvs y) (l_answered y) ->
+  flight_ok f (zlen (l_sub y)) (zlen (l_del y)) (l_sub y) (l_nvs y) -> dgram_chunks (f_d f) = cs ->
+  fresh f x -> zlen (l_sub y) - zlen (l_del x) <= 511 ->
+  snd_inv o3 (l_sub x) (l_nvs x) a3 -> a3 <= zlen (l_del y) -> o_ack o3 = seqof (zlen (l_del x)) ->
+  recv_chunks (o_ack o3) (o_rr o3) cs = Ok (ack', rr', evs) ->
+  conn_ok6 {| c_state := Online (o_set_ack o3 ack' rr'); c_send := snd |} ->
+  Forall (dgram_ok pp6) sent ->
+  Forall (fun d => flight_ok (mk_flight (zlen (l_sub x)) (zlen (l_del x)) d)
+                     (zlen (l_sub x)) (zlen (l_del x)) (l_sub x) (l_nvs x)) sent ->
+  Forall (fun d => is_connect_accept d = false) sent ->
+  (never_online (c_state (l_conn x)) \/ exists on, c_state (l_conn x) = Online on) ->
+  let out := mk {| c_state := Online (o_set_ack o3 ack' rr'); c_send := snd |} e' sent evs [] ROk in
+  side_inv (after x (OpFeed (f_d f)) out) (l_sub y) (l_del y) (l_nvs y) (l_answered y) /\
+  bag_inv (flights_of x out) (after x (OpFeed (f_d f)) out) /\ grows x (after x (OpFeed (f_d f)) out).
+Proof.
+  intros Hi Hf Hcs [Hfa Hfb] Hgap Hs3 Ha3 Hack3 Hrc Hc' Hds Hfl Hca Hstate out.
+  destruct Hf as [Hfn [Hfc [Hfack [Hflen Hfch]]]]. rewrite Hcs in *.
+  pose proof (sv_prefix _ _ _ _ _ Hi) as Hpre. pose proof (sv_dle _ _ _ _ _ Hi) as Hdle.
+  rewrite Hack3 in Hrc.
+  destruct (recv_link cs (zlen (l_del x)) (o_rr o3) (f_n f) (l_sub y) (l_nvs y) ack' rr' evs 0 Hrc Hfch)
+    as [d' [Hd1 [Hd2 [Hd3 [Hd4 [Hd5 Hd6]]]]]].
+  { split; [apply zlen_nonneg|exact Hdle]. }
+  { lia. }
+  { exact Hgap. }
+  { unfold zlen. lia. }
+  { lia. }
+  { intros c s r Hin Hv. specialize (Hfb c s r Hin Hv). lia. }
+  assert (Hrdy : ready_events evs = 0) by (eapply recv_events_quiet_ready, Hrc).
+  assert (Hdel' : l_del (after x (OpFeed (f_d f)) out) = l_del x ++ vital_payloads evs) by reflexivity.
+  assert (Hz : zlen (l_del x ++ vital_payloads evs) = d') by (rewrite zlen_app; lia).
+  assert (Hg : grows x (after x (OpFeed (f_d f)) out)).
+  { unfold grows. cbn. split; [exists []; rewrite app_nil_r; reflexivity|]. split; [eexists; reflexivity|].
+    split; [apply incl_refl|]. intros ->. reflexivity. }
+  split; [|split; [|exact Hg]].
+  - constructor.
+    + exact Hc'.
+    + cbn. intros [].
+    + intros o2 Ho2. cbn in Ho2. injection Ho2 as <-. exists a3. cbn [after l_sub l_nvs l_del out out_events out_res mk].
+      split; [apply o_set_ack_snd, Hs3|]. split; [exact Ha3|]. cbn. rewrite Hz. exact Hd1.
+    + rewrite Hdel', Hz. rewrite Hpre at 1. exact Hd4.
+    + rewrite Hdel', Hz. lia.
+    + cbn [after l_sub]. exact (sv_gap _ _ _ _ _ Hi).
+    + cbn [after l_nvr out out_events mk]. apply incl_app; [exact (sv_nvr _ _ _ _ _ Hi)|exact Hd6].
+    + cbn [after l_ready out out_events mk]. rewrite Hrdy. pose proof (sv_ready _ _ _ _ _ Hi). lia.
+    + cbn. discriminate.
+    + cbn [after l_ready out out_events mk]. rewrite Hrdy. replace (l_ready x + 0) with (l_ready x) by lia.
+      exact (sv_ans _ _ _ _ _ Hi).
+  - apply flights_inv. cbn [out_sent out mk]. eapply chunk_flights; eassumption.
+Qed.
+
+Lemma online_replace x x' subY delY nvsY ansY on o' :
+  side_inv x subY delY nvsY ansY ->
+  c_state (l_conn x) = Online on -> c_state (l_conn x') = Online o' ->
+  l_sub x' = l_sub x -> l_del x' = l_del x -> l_nvs x' = l_nvs x -> l_nvr x' = l_nvr x ->
+  l_ready x' = l_ready x -> conn_ok6 (l_conn x') ->
+  (exists a', snd_inv o' (l_sub x) (l_nvs x) a' /\ a' <= zlen delY /\ o_ack o' = seqof (zlen (l_del x))) ->
+  side_inv x' subY delY nvsY ansY.
+Proof.
+  intros Hi Hon Hon' Hs Hd Hn Hr Hy Hc Hex.
+  eapply side_inv_keep; try eassumption.
+  - rewrite Hon'. intros [].
+  - intros o2 Ho2. rewrite Hon' in Ho2. injection Ho2 as <-. exact Hex.
+  - rewrite Hon'. discriminate.
+Qed.
+
+(* an arriving datagram whose only effect is its acknowledgement *)
+Lemma ack_step x subY delY nvsY ansY d on o' snd e' :
+  side_inv x subY delY nvsY ansY -> c_state (l_conn x) = Online on ->
+  conn_ok6 {| c_state := Online o'; c_send := snd |} ->
+  (exists a', snd_inv o' (l_sub x) (l_nvs x) a' /\ a' <= zlen delY /\ o_ack o' = seqof (zlen (l_del x))) ->
+  let out := mk {| c_state := Online o'; c_send := snd |} e' [] [] [] ROk in
+  side_inv (after x (OpFeed d) out) subY delY nvsY ansY /\ bag_inv (flights_of x out) (after x (OpFeed d) out) /\
+  grows x (after x (OpFeed d) out).
+Proof.
+  intros Hi Hon Hc' Hex out.
+  assert (Hg : grows x (after x (OpFeed d) out)) by (apply after_noev_grows; [reflexivity|discriminate]).
+  split; [|split; [constructor|exact Hg]].
+  eapply (online_replace x _ _ _ _ _ on o'); try exact Hi; try exact Hon; try exact Hex; try exact Hc'; same_ghosts.
+Qed.
+
+(* the peer closes the connection *)
+Lemma close_step x subY delY nvsY ansY d snd e' reason :
+  side_inv x subY delY nvsY ansY ->
+  let out := mk {| c_state := Disconnected; c_send := snd |} e' [] [EvDisconnect reason] [] ROk in
+  side_inv (after x (OpFeed d) out) subY delY nvsY ansY /\ bag_inv (flights_of x out) (after x (OpFeed d) out) /\
+  grows x (after x (OpFeed d) out).
+Proof.
+  intros Hi out.
+  assert (Hg : grows x (after x (OpFeed d) out)).
+  { unfold grows. cbn. rewrite app_nil_r. split; [exists []; rewrite app_nil_r; reflexivity|].
+    split; [exists []; rewrite app_nil_r; reflexivity|]. split; [apply incl_refl|]. intros ->. reflexivity. }
+  split; [|split; [constructor|exact Hg]].
+  eapply side_inv_keep; try exact Hi; same_ghosts.
+  - cbn. intros [].
+  - cbn. intros o' Ho'. discriminate Ho'.
+  - cbn. discriminate.
+Qed.
+
+Ltac quiet_tac :=
+  apply quiet_step;
+  [assumption | discriminate | first [apply quiet_nil | repeat split] | assumption
+  | first [reflexivity | (cbn; congruence) | (destruct (l_conn _); reflexivity)]].
+
+Theorem feed_step_inv now x y f :
+  side_inv x (l_sub y) (l_del y) (l_nvs y) (l_answered y) ->
+  side_inv y (l_sub x) (l_del x) (l_nvs x) (l_answered x) ->
+  flight_inv y f -> fresh f x -> rand_ok {| e_now := now; e_rand := l_rand x |} ->
+  exists x' fl, side_step now x (OpFeed (f_d f)) = Ok (x', fl) /\
+                side_inv x' (l_sub y) (l_del y) (l_nvs y) (l_answered y) /\
+                bag_inv fl x' /\ grows x x'.
+Proof.
+  intros Hi Hy [Hf [Hin Hans]] Hfresh Hrand. pose proof (sv_conn _ _ _ _ _ Hi) as Hc.
+  assert (Hv : valid_op6 (l_conn x) {| e_now := now; e_rand := l_rand x |} (OpFeed (f_d f))) by (split; assumption).
+  destruct (step_ok6 _ _ _ Hc Hv) as [out [Hstep [Hc' Hds]]].
+  exists (after x (OpFeed (f_d f)) out), (flights_of x out). split; [apply side_step_unfold, Hstep|].
+  pose proof (sv_dle _ _ _ _ _ Hy) as Hdley. pose proof (sv_gap _ _ _ _ _ Hy) as Hgapy.
+  pose proof Hf as Hf0. destruct Hf0 as [Hfn [Hfc [Hfack [Hflen Hfch]]]]. destruct Hfresh as [Hfa Hfb].
+  unfold step, feed in Hstep. cbn [e_now e_rand] in Hstep.
+  destruct (f_d f) as [tk rs pl|tk ack ctl|tk ack rr n cs] eqn:Efd.
+  - (* connectionless *)
+    injection Hstep as <-. quiet_tac.
+  - (* control *)
+    cbn [dgram_tok dgram_ack] in Hstep.
+    destruct (match state_token (c_state (l_conn x)) with Some expected => negb (tok_eqb tk expected) | None => false end).
+    { injection Hstep as <-. quiet_tac. }
+    destruct Hin as [Htk Hack]. replace ((ack <? 0) || (SEQ_MOD <=? ack)) with false in Hstep by lia.
+    assert (Hackc : ack = seqof (f_c f)) by (apply Hfack; reflexivity).
+    destruct (c_state (l_conn x)) as [| |t|on|] eqn:Est.
+    + (* unconnected *)
+      destruct ctl as [|resp| | |reason|resp];
+        try (injection Hstep as <-; quiet_tac).
+      * (* Connect: the acceptor answers *)
+        assert (Hfin : forall t e', tick_action {| c_state := Pending t; c_send := c_send (l_conn x) |} e' = Ok out ->
+                  side_inv (after x (OpFeed (DControl tk ack (Connect resp))) out) (l_sub y) (l_del y) (l_nvs y) (l_answered y) /\
+                  bag_inv (flights_of x out) (after x (OpFeed (DControl tk ack (Connect resp))) out) /\
+                  grows x (after x (OpFeed (DControl tk ack (Connect resp))) out)).
+        { intros t e' Ht. unfold tick_action in Ht. cbn [c_state] in Ht.
+          destruct (send_control (Pending t) ConnectAccept) as [ds| | |] eqn:Esc; cbn [bind] in Ht; try discriminate.
+          destruct (send_control_shape _ _ _ Esc) as [tok ->]. injection Ht as <-.
+          apply control_step; try assumption; try discriminate.
+          - inversion Hds; assumption.
+          - rewrite Est. auto.
+          - rewrite Est. reflexivity.
+          - rewrite Est. discriminate. }
+        destruct tk as [tk|].
+        -- destruct (list_eq_dec Z.eq_dec tk TOKEN_NONE).
+           ++ destruct (token_random (l_rand x)) as [[nt rnd']| | |]; cbn [bind] in Hstep; try discriminate.
+              eapply Hfin, Hstep.
+           ++ injection Hstep as <-. quiet_tac.
+        -- eapply Hfin, Hstep.
+      * (* Close *)
+        injection Hstep as <-. apply close_step; assumption.
+    + (* connecting *)
+      destruct ctl as [|resp| | |reason|resp];
+        try (injection Hstep as <-; quiet_tac).
+      * (* ConnectAccept: online, Ready *)
+        destruct (send_control (Online (online_new tk tk)) Accept) as [ds| | |] eqn:Esc; cbn [bind] in Hstep; try discriminate.
+        destruct (send_control_shape _ _ _ Esc) as [tok ->]. injection Hstep as <-.
+        assert (Hnev : never_online (c_state (l_conn x))) by (rewrite Est; exact I).
+        destruct (sv_fresh _ _ _ _ _ Hi Hnev) as [Hs0 [Hd0 [Hn0 Hr0]]].
+        set (out := mk {| c_state := Online (online_new tk tk); c_send := c_send (l_conn x) |}
+                       {| e_now := now; e_rand := l_rand x |} [DControl tok (o_ack (online_new tk tk)) Accept] [EvReady] [] ROk).
+        assert (Hg : grows x (after x (OpFeed (DControl tk ack ConnectAccept)) out)).
+        { unfold grows. cbn. rewrite app_nil_r. split; [exists []; rewrite app_nil_r; reflexivity|].
+          split; [exists []; rewrite app_nil_r; reflexivity|]. split; [apply incl_refl|]. intros ->. reflexivity. }
+        split; [|split; [|exact Hg]].
+        -- constructor.
+           ++ exact Hc'.
+           ++ cbn. intros [].
+           ++ intros o2 Ho2. cbn in Ho2. injection Ho2 as <-. exists 0. cbn [after l_sub l_nvs l_del out out_events out_res mk vital_payloads flat_map].
+              rewrite Hs0, Hn0, Hd0. split; [apply snd_inv_new|]. split; [apply zlen_nonneg|reflexivity].
+           ++ cbn. rewrite Hd0. reflexivity.
+           ++ cbn. rewrite Hd0. apply zlen_nonneg.
+           ++ cbn. rewrite Hs0. pose proof (zlen_nonneg (l_del y)). unfold zlen at 1. cbn. lia.
+           ++ cbn. rewrite app_nil_r. exact (sv_nvr _ _ _ _ _ Hi).
+           ++ cbn. rewrite Hr0. change (ready_events [EvReady]) with 1. lia.
+           ++ cbn. discriminate.
+           ++ intros _. apply Hans. reflexivity.
+        -- apply flights_inv. cbn [out_sent out mk]. constructor; [|constructor].
+           assert (Hs : l_sub (after x (OpFeed (DControl tk ack ConnectAccept)) out) = l_sub x) by reflexivity.
+           assert (Hd : l_del (after x (OpFeed (DControl tk ack ConnectAccept)) out) = l_del x) by (cbn; apply app_nil_r).
+           rewrite <- Hs, <- Hd. apply control_flight.
+           ++ rewrite Hd, Hd0. reflexivity.
+           ++ inversion Hds as [|d0 ds0 Hd1 _]. apply Hd1.
+           ++ discriminate.
+      * injection Hstep as <-. apply close_step; assumption.
+    + (* pending *)
+      destruct ctl as [|resp| | |reason|resp];
+        try (injection Hstep as <-; quiet_tac).
+      injection Hstep as <-. apply close_step; assumption.
+    + (* online: the acknowledgement is processed first *)
+      assert (Hex : exists a', snd_inv (ack_chunks on ack) (l_sub x) (l_nvs x) a' /\ a' <= zlen (l_del y) /\
+                               o_ack (ack_chunks on ack) = seqof (zlen (l_del x))).
+      { rewrite Hackc. apply (ack_side x y on (f_c f)); try assumption; lia. }
+      destruct ctl as [|resp| | |reason|resp];
+        try (injection Hstep as <-; apply (ack_step x _ _ _ _ _ on); assumption).
+      injection Hstep as <-. apply close_step; assumption.
+    + (* disconnected *)
+      destruct ctl as [|resp| | |reason|resp]; injection Hstep as <-; quiet_tac.
+  - (* chunks *)
+    cbn [dgram_tok dgram_ack] in Hstep.
+    destruct (match state_token (c_state (l_conn x)) with Some expected => negb (tok_eqb tk expected) | None => false end).
+    { injection Hstep as <-. quiet_tac. }
+    destruct Hin as [Htk [Hack Hcsin]]. replace ((ack <? 0) || (SEQ_MOD <=? ack)) with false in Hstep by lia.
+    assert (Hackc : ack = seqof (f_c f)) by (apply Hfack; reflexivity).
+    assert (Hfresh' : fresh f x) by (split; [exact Hfa|rewrite Efd; exact Hfb]).
+    assert (Hcs : dgram_chunks (f_d f) = cs) by (rewrite Efd; reflexivity).
+    destruct (c_state (l_conn x)) as [| |t|on|] eqn:Est.
+    + injection Hstep as <-. quiet_tac.
+    + injection Hstep as <-. quiet_tac.
+    + (* pending: the first chunk datagram takes the acceptor online *)
+      cbn [c_state] in Hstep.
+      assert (Hnev : never_online (c_state (l_conn x))) by (rewrite Est; exact I).
+      destruct (sv_fresh _ _ _ _ _ Hi Hnev) as [Hs0 [Hd0 [Hn0 Hr0]]].
+      assert (Hrs : (if rr then do_resend {| c_state := Online (online_new t t); c_send := c_send (l_conn x) |}
+                                   {| e_now := now; e_rand := l_rand x |} (online_new t t)
+                     else Ok ({| c_state := Online (online_new t t); c_send := c_send (l_conn x) |}, []))
+                    = Ok ({| c_state := Online (online_new t t); c_send := c_send (l_conn x) |}, [])).
+      { destruct rr; reflexivity. }
+      rewrite Hrs in Hstep. cbn [bind c_state c_send] in Hstep.
+      destruct (recv_chunks (o_ack (online_new t t)) (o_rr (online_new t t)) cs) as [[[ack' rr'] evs]| | |] eqn:Erc;
+        cbn [bind] in Hstep; try discriminate.
+      injection Hstep as <-. rewrite <- Efd.
+      assert (Hs3 : snd_inv (online_new t t) (l_sub x) (l_nvs x) 0) by (rewrite Hs0, Hn0; apply snd_inv_new).
+      assert (Hack3 : o_ack (online_new t t) = seqof (zlen (l_del x))) by (rewrite Hd0; reflexivity).
+      exact (chunks_arrive x y f (online_new t t) (c_send (l_conn x)) [] {| e_now := now; e_rand := l_rand x |} 0 cs
+               ack' rr' evs Hi Hf Hcs Hfresh' Hgapy Hs3 (zlen_nonneg _) Hack3 Erc Hc' Hds (Forall_nil _) (Forall_nil _)
+               (or_introl Hnev)).
+    + (* online *)
+      cbn [c_state] in Hstep.
+      assert (Hex : exists a', snd_inv (ack_chunks on ack) (l_sub x) (l_nvs x) a' /\ a' <= zlen (l_del y) /\
+                               o_ack (ack_chunks on ack) = seqof (zlen (l_del x))).
+      { rewrite Hackc. apply (ack_side x y on (f_c f)); try assumption; lia. }
+      destruct Hex as [a1 [Hs1 [Ha1 Hack1]]].
+      destruct (online_parts _ _ _ _ _ _ Hi Est) as [Hok [Hcp [Hcnv _]]].
+      destruct (ack_chunks_same on ack) as [_ [_ [Ep [Env _]]]].
+      destruct rr.
+      * unfold do_resend in Hstep. cbn [e_now] in Hstep.
+        destruct (online_resend params6 now (ack_chunks on ack)) as [[[o3 sent] ts]| | |] eqn:Er; cbn [bind] in Hstep; try discriminate.
+        cbn [c_state c_send] in Hstep.
+        destruct (recv_chunks (o_ack o3) (o_rr o3) cs) as [[[ack' rr'] evs]| | |] eqn:Erc; cbn [bind] in Hstep; try discriminate.
+        injection Hstep as <-. rewrite <- Efd.
+        assert (Hcp1 : pk_count_ok (o_packet (ack_chunks on ack))) by (rewrite Ep; exact Hcp).
+        assert (Hcnv1 : pk_count_ok (o_packet_nv (ack_chunks on ack))) by (rewrite Env; exact Hcnv).
+        destruct (resend_link params6 now _ o3 sent ts _ _ a1 (zlen (l_del x)) Er Hcp1 Hcnv1 Hs1 Hack1 (zlen_nonneg _))
+          as [Hs3 [Hack3 [_ Hfl3]]].
+        assert (Hack3' : o_ack o3 = seqof (zlen (l_del x))) by congruence.
+        exact (chunks_arrive x y f o3 _ sent {| e_now := now; e_rand := l_rand x |} a1 cs ack' rr' evs
+                 Hi Hf Hcs Hfresh' Hgapy Hs3 Ha1 Hack3' Erc Hc' Hds Hfl3 (resend_not_ca _ _ _ _ _ _ Er)
+                 (or_intror (ex_intro _ on Est))).
+      * cbn [bind c_state c_send] in Hstep.
+        destruct (recv_chunks (o_ack (ack_chunks on ack)) (o_rr (ack_chunks on ack)) cs) as [[[ack' rr'] evs]| | |] eqn:Erc;
+          cbn [bind] in Hstep; try discriminate.
+        injection Hstep as <-. rewrite <- Efd.
+        exact (chunks_arrive x y f (ack_chunks on ack) _ [] {| e_now := now; e_rand := l_rand x |} a1 cs ack' rr' evs
+                 Hi Hf Hcs Hfresh' Hgapy Hs1 Ha1 Hack1 Erc Hc' Hds (Forall_nil _) (Forall_nil _)
+                 (or_intror (ex_intro _ on Est))).
+    + injection Hstep as <-. quiet_tac.
+Qed.
+
+(* ---------- the whole link ---------- *)
+Definition admissible (w : link) (l : llabel) : Prop :=
+  match l with
+  | LApp s o =>
+    app_op o /\ valid_op6 (l_conn (get w s)) {| e_now := k_now w; e_rand := l_rand (get w s) |} o /\
+    window_ok (get w s) o
+  | LTime _ => True
+  | LDeliver from k =>
+    match nth_error (bag w from) k with
+    | Some f => fresh f (get w (other from)) /\
+                rand_ok {| e_now := k_now w; e_rand := l_rand (get w (other from)) |}
+    | None => True
+    end
+  | LDrop _ _ => True
+  end.
+
+Fixpoint admissible_run (w : link) (ls : list llabel) : Prop :=
+  match ls with
+  | [] => True
+  | l :: r => admissible w l /\ match link_step w l with Ok w' => admissible_run w' r | _ => True end
+  end.
+
+Lemma link_inv_sym w :
+  link_inv w ->
+  side_inv (k_b w) (l_sub (k_a w)) (l_del (k_a w)) (l_nvs (k_a w)) (l_answered (k_a w)).
+Proof. intros [_ [H _]]. exact H. Qed.
+
+Lemma remove_nth_forall {A} (P : A -> Prop) k l : Forall P l -> Forall P (remove_nth k l).
+Proof.
+  revert k. induction l as [|x l IH]; intros k H; destruct k; cbn; try constructor; inversion H; subst; try assumption.
+  apply IH; assumption.
+Qed.
+
+Theorem link_step_inv w l : link_inv w -> admissible w l ->
+  exists w', link_step w l = Ok w' /\ link_inv w'.
+Proof.
+  intros [Ha [Hb [Hab Hba]]] Hadm. destruct l as [s o|dt|from k|from k]; cbn [link_step admissible] in *.
+  - destruct Hadm as [Happ [Hv Hw]]. destruct s; cbn [get] in *.
+    + destruct (app_step_inv _ _ _ _ _ _ _ Ha Happ Hv Hw) as [x' [fl [Hs [Hi' [Hfl Hg]]]]].
+      rewrite Hs. eexists. split; [reflexivity|]. unfold link_inv, set_side. cbn.
+      split; [exact Hi'|]. split; [eapply side_inv_mono; [exact Hb|exact Hg|reflexivity]|].
+      split; [|exact Hba]. apply Forall_app. split; [eapply bag_inv_mono; eassumption|exact Hfl].
+    + destruct (app_step_inv _ _ _ _ _ _ _ Hb Happ Hv Hw) as [x' [fl [Hs [Hi' [Hfl Hg]]]]].
+      rewrite Hs. eexists. split; [reflexivity|]. unfold link_inv, set_side. cbn.
+      split; [eapply side_inv_mono; [exact Ha|exact Hg|reflexivity]|]. split; [exact Hi'|].
+      split; [exact Hab|]. apply Forall_app. split; [eapply bag_inv_mono; eassumption|exact Hfl].
+  - eexists. split; [reflexivity|]. exact (conj Ha (conj Hb (conj Hab Hba))).
+  - destruct (nth_error (bag w from) k) as [f|] eqn:Ek.
+    2:{ eexists. split; [reflexivity|]. exact (conj Ha (conj Hb (conj Hab Hba))). }
+    destruct Hadm as [Hfresh Hrand].
+    destruct from; cbn [bag other get] in *.
+    + (* A -> B *)
+      assert (Hf : flight_inv (k_a w) f).
+      { unfold bag_inv in Hab. rewrite Forall_forall in Hab. apply Hab. eapply nth_error_In, Ek. }
+      destruct (feed_step_inv (k_now w) (k_b w) (k_a w) f Hb Ha Hf Hfresh Hrand) as [x' [fl [Hs [Hi' [Hfl Hg]]]]].
+      rewrite Hs. eexists. split; [reflexivity|]. unfold link_inv, set_side. cbn.
+      split; [eapply side_inv_mono; [exact Ha|exact Hg|reflexivity]|]. split; [exact Hi'|].
+      split; [exact Hab|]. apply Forall_app. split; [eapply bag_inv_mono; eassumption|exact Hfl].
+    + assert (Hf : flight_inv (k_b w) f).
+      { unfold bag_inv in Hba. rewrite Forall_forall in Hba. apply Hba. eapply nth_error_In, Ek. }
+      destruct (feed_step_inv (k_now w) (k_a w) (k_b w) f Ha Hb Hf Hfresh Hrand) as [x' [fl [Hs [Hi' [Hfl Hg]]]]].
+      rewrite Hs. eexists. split; [reflexivity|]. unfold link_inv, set_side. cbn.
+      split; [exact Hi'|]. split; [eapply side_inv_mono; [exact Hb|exact Hg|reflexivity]|].
+      split; [|exact Hba]. apply Forall_app. split; [eapply bag_inv_mono; eassumption|exact Hfl].
+  - eexists. split; [reflexivity|]. unfold link_inv. destruct from; cbn.
+    + split; [exact Ha|]. split; [exact Hb|]. split; [apply remove_nth_forall, Hab|exact Hba].
+    + split; [exact Ha|]. split; [exact Hb|]. split; [exact Hab|apply remove_nth_forall, Hba].
+Qed.
+
+Theorem link_run_inv ls : forall w, link_inv w -> admissible_run w ls ->
+  exists w', link_run w ls = Ok w' /\ link_inv w'.
+Proof.
+  induction ls as [|l ls IH]; intros w Hi Ha; cbn [link_run admissible_run] in *.
+  - exists w. split; [reflexivity|exact Hi].
+  - destruct Ha as [Ha1 Ha2]. destruct (link_step_inv w l Hi Ha1) as [w1 [Hs Hi1]]. rewrite Hs in *.
+    apply IH; assumption.
+Qed.
+
+Lemma link_new_inv ra rb : link_inv (link_new ra rb).
+Proof.
+  assert (H : forall r subY delY nvsY ansY, side_inv (lside_new r) subY delY nvsY ansY).
+  { intros. constructor; cbn; try reflexivity; try discriminate; try lia; try exact I.
+    - intros _. repeat split.
+    - apply zlen_nonneg.
+    - pose proof (zlen_nonneg delY). unfold zlen at 1. cbn. lia.
+    - intros z []. }
+  unfold link_inv, link_new. cbn. repeat split; try apply H; constructor.
+Qed.
+
+(* ---------- an executable version of the assumptions (used for concrete traces) ---------- *)
+Definition rand_okb (rnd : list token) : bool :=
+  forallb (fun t => Nat.eqb (length t) 4) rnd && match token_random rnd with Ok _ => true | _ => false end.
+
+Definition valid_appb (x : lside) (o : op) : bool :=
+  match o with
+  | OpConnect => match c_state (l_conn x) with Unconnected => true | _ => false end
+  | OpSend _ vital =>
+    match c_state (l_conn x) with
+    | Online on => if vital then zlen (o_queue on) <? 511 else true
+    | _ => false
+    end
+  | OpFlush | OpSendConnless _ => match c_state (l_conn x) with Online _ => true | _ => false end
+  | OpDisconnect r =>
+    match c_state (l_conn x) with Unconnected | Disconnected => false | _ => true end
+    && negb (existsb (fun b => b =? 0) r) && (length r <=? 127)%nat
+  | OpTick => true
+  | _ => false
+  end.
+
+Definition freshb (f : flight) (rcv : lside) : bool :=
+  (zlen (l_sub rcv) - f_c f <? 1024) &&
+  forallb (fun c => match ch_vital c with
+                    | Some (s, _) => zlen (l_del rcv) - idx_of (f_n f) s <? 768
+                    | None => true
+                    end) (dgram_chunks (f_d f)).
+
+Definition admissibleb (w : link) (l : llabel) : bool :=
+  match l with
+  | LApp s o => valid_appb (get w s) o
+  | LTime _ | LDrop _ _ => true
+  | LDeliver from k =>
+    match nth_error (bag w from) k with
+    | Some f => freshb f (get w (other from)) && rand_okb (l_rand (get w (other from)))
+    | None => true
+    end
+  end.
+
+Fixpoint admissible_runb (w : link) (ls : list llabel) : bool :=
+  match ls with
+  | [] => true
+  | l :: r => admissibleb w l && match link_step w l with Ok w' => admissible_runb w' r | _ => true end
+  end.
+
+Lemma rand_okb_ok now rnd : rand_okb rnd = true -> rand_ok {| e_now := now; e_rand := rnd |}.
+Proof.
+  unfold rand_okb, rand_ok. cbn. intros H. apply andb_true_iff in H as [H1 H2]. split.
+  - rewrite forallb_forall in H1. apply Forall_forall. intros t Ht. apply Nat.eqb_eq, H1, Ht.
+  - destruct (token_random rnd) as [[t r]| | |]; try discriminate. eexists _, _. reflexivity.
+Qed.
+
+Lemma admissibleb_ok w l : admissibleb w l = true -> admissible w l.
+Proof.
+  destruct l as [s o|dt|from k|from k]; cbn [admissibleb admissible]; try (intros _; exact I).
+  - intros H. unfold valid_appb in H.
+    destruct o as [|data vital| | |reason|data|d| |]; try discriminate; cbn [app_op valid_op6 window_ok].
+    + destruct (c_state (l_conn (get w s))); try discriminate. repeat split.
+    + destruct (c_state (l_conn (get w s))) as [| |t|on|] eqn:E; try discriminate.
+      split; [exact I|]. split; [eexists; reflexivity|]. destruct vital; [lia|exact I].
+    + destruct (c_state (l_conn (get w s))) eqn:E; try discriminate. split; [exact I|]. split; [eexists; reflexivity|exact I].
+    + repeat split.
+    + apply andb_true_iff in H as [H H3]. apply andb_true_iff in H as [H1 H2].
+      split; [exact I|]. split; [|exact I]. repeat split.
+      * intros E. rewrite E in H1. discriminate.
+      * intros E. rewrite E in H1. discriminate.
+      * apply negb_true_iff, H2.
+      * apply Nat.leb_le, H3.
+    + destruct (c_state (l_conn (get w s))) eqn:E; try discriminate. split; [exact I|]. split; [eexists; reflexivity|exact I].
+  - destruct (nth_error (bag w from) k) as [f|]; [|intros _; exact I].
+    intros H. apply andb_true_iff in H as [H1 H2]. split; [|apply rand_okb_ok, H2].
+    unfold freshb in H1. apply andb_true_iff in H1 as [Ha Hb]. split; [lia|].
+    intros c s r Hin Hv. rewrite forallb_forall in Hb. specialize (Hb c Hin). rewrite Hv in Hb. lia.
+Qed.
+
+Lemma admissible_runb_ok ls : forall w, admissible_runb w ls = true -> admissible_run w ls.
+Proof.
+  induction ls as [|l ls IH]; intros w H; cbn [admissible_runb admissible_run] in *; [exact I|].
+  apply andb_true_iff in H as [H1 H2]. split; [apply admissibleb_ok, H1|].
+  destruct (link_step w l); try exact I. apply IH, H2.
 Qed.
